@@ -196,7 +196,7 @@ func (table *Table) DispatchAggregate(buf []byte) {
 
 	// like Dispatch, match the routes against the metric name only
 	name := buf
-	if pos := bytes.IndexByte(buf, ' '); pos > 0 {
+	if pos := bytes.IndexByte(buf, ' '); pos >= 0 {
 		name = buf[:pos]
 	}
 
